@@ -83,7 +83,27 @@ def wrapLine (maxLen : Nat) : List String → String → List String
 def wrappedLines (lines : List String) (maxLen : Nat) : List String :=
   lines.flatMap fun l => if l.length ≤ maxLen then [l] else wrapLine maxLen (splitWords l.toList []) ""
 
-def escTriple (s : String) : String := s.replace "\"\"\"" "\\\"\"\""
+/-- `value.replace('"""', '\\"""')` on characters (leftmost, non-overlapping); `k > 0` = inside a replaced `"""`.
+    List-based (as `PrintString.escapeTQAux`) so that the two printer models can be PROVED equal (`Props/C12_models.lean`). -/
+def escTQc : Nat → List Char → List Char
+  | _, [] => []
+  | k + 1, c :: t => c :: escTQc k t
+  | 0, c :: t =>
+    if ['"', '"', '"'].isPrefixOf (c :: t) then '\\' :: c :: escTQc 2 t
+    else c :: escTQc 0 t
+
+def escTriple (s : String) : String := String.ofList (escTQc 0 s.toList)
+
+/-- `s.split("\n")` on characters: at least one piece -/
+def splitLFc : List Char → List (List Char)
+  | [] => [[]]
+  | c :: t =>
+    if c = '\n' then [] :: splitLFc t
+    else match splitLFc t with
+      | l :: ls => (c :: l) :: ls
+      | [] => [[c]]
+
+def splitLines (s : String) : List String := (splitLFc s.toList).map String.ofList
 
 def repeatStr (s : String) : Nat → String | 0 => "" | n+1 => s ++ repeatStr s n
 
@@ -94,7 +114,7 @@ def printDescription (o : Opts) (desc : Option String) (depth : Nat := 0) (first
   | some d =>
     if !o.descriptions || d.isEmpty then "" else
     let indent := repeatStr o.indent depth
-    let lines := wrappedLines (d.splitOn "\n") (120 - indent.length)
+    let lines := wrappedLines (splitLines d) (120 - indent.length)
     let first := lines.headD ""
     -- fixes D3 / D1 (lang3): a carriage return, or a white-space-led first line whose other non-blank lines are all
     -- indented, cannot be written as a block string: quoted form
@@ -104,7 +124,7 @@ def printDescription (o : Opts) (desc : Option String) (depth : Nat := 0) (first
       (if !indent.isEmpty && !firstInBlock then "\n" else "") ++ indent ++ jsonDumps d ++ "\n"
     else
     let body :=
-      if lines.length == 1 && first.length < 70 && !first.endsWith "\"" then escTriple first
+      if lines.length == 1 && first.length < 70 && !(first.toList.getLast? == some '"') then escTriple first
       else
         let lead := first.length > (lstrip first).length
         let rec go (i : Nat) : List String → List String
@@ -309,22 +329,30 @@ end
 
 def valueFuel : Nat := 200
 
-/-- `print_ast` of a literal node -/
-partial def litText : Lit → String
+mutual
+/-- `print_ast` of a literal node (total, structural) -/
+def litText : Lit → String
   | .null => "null"
   | .int v _ => v
   | .float v _ => v
   | .str x => jsonDumps x
   | .bool b => if b then "true" else "false"
   | .enum v => v
-  | .list l => "[" ++ ", ".intercalate (l.map litText) ++ "]"
-  | .obj fs => "{" ++ ", ".intercalate (fs.map fun (k, v) => k ++ ": " ++ litText v) ++ "}"
+  | .list l => "[" ++ ", ".intercalate (litTexts l) ++ "]"
+  | .obj fs => "{" ++ ", ".intercalate (fieldTexts fs) ++ "}"
+def litTexts : List Lit → List String
+  | [] => []
+  | v :: vs => litText v :: litTexts vs
+def fieldTexts : List (String × Lit) → List String
+  | [] => []
+  | (k, v) :: fs => (k ++ ": " ++ litText v) :: fieldTexts fs
+end
 
 /-- text of `print_ast(ast_node_from_value(v, ty))` -/
 def valueText (s : SchemaD) (fuel : Nat) (v : J) (ty : Ty) : Option String := (valueLit s fuel v ty).map litText
 
 def dirAppText (d : DirApp) : String :=
-  "@" ++ d.name ++ (if d.args.isEmpty then "" else "(" ++ ", ".intercalate (d.args.map fun (k, v) => k ++ ": " ++ litText v) ++ ")")
+  "@" ++ d.name ++ (if d.args.isEmpty then "" else "(" ++ ", ".intercalate (fieldTexts d.args) ++ ")")
 
 /-! ### the printer; every function threads the state -/
 
